@@ -3138,6 +3138,12 @@ func (s *BgpServer) ListPath(r apiutil.ListPathRequest, fn func(prefix bgp.NLRI,
 		return err
 	}
 
+	// s.bgpConfig is written by StartBgp/StopBgp under s.shared.mu; we are
+	// outside of the management operation here, so snapshot it under the lock.
+	s.shared.mu.RLock()
+	useMultiplePaths := s.bgpConfig.Global.UseMultiplePaths.Config.Enabled
+	s.shared.mu.RUnlock()
+
 	err = func() error {
 		for _, dst := range tbl.GetDestinations() {
 			prefix := dst.GetNlri()
@@ -3155,7 +3161,7 @@ func (s *BgpServer) ListPath(r apiutil.ListPathRequest, fn func(prefix bgp.NLRI,
 						case api.TableType_TABLE_TYPE_LOCAL, api.TableType_TABLE_TYPE_GLOBAL:
 							p.Best = true
 						}
-					} else if s.bgpConfig.Global.UseMultiplePaths.Config.Enabled && path.Compare(knownPathList[0]) == 0 {
+					} else if useMultiplePaths && path.Compare(knownPathList[0]) == 0 {
 						p.Best = true
 					}
 				}
